@@ -32,6 +32,10 @@ theorem gen_tok_codes_distinct :
 /-- rune 0, which the lexer sees after the end, is not an exponent sign -/
 theorem gen_exp_signs : GoodLex Jsonx.lexCfg := by decide
 
+/-- `parseValue` has a nesting limit (`maxNestingDepth`, guarded in both bracket cases) -/
+theorem gen_depth_limited : Jsonx.cfg.depthLimit = some (Jsonx.depthLimit.getD 0) ∧ Jsonx.depthLimit.isSome = true := by
+  decide
+
 theorem gen_cfg_good : GoodCfg Jsonx.cfg :=
   ⟨gen_errMax_pos, gen_list_breaks, gen_skip_stops_at_eof, gen_skip_skips_other⟩
 
